@@ -1078,3 +1078,105 @@ func init() {
 	externals["encoding/json.Unmarshal"] = ext۰json۰Unmarshal
 	externals["encoding/json.Valid"] = ext۰json۰Valid
 }
+
+// ---- json.Decoder over concrete input: the real decoder does the lexing,
+// tokens and decoded values are converted to interpreter values.
+
+type jsonDecModel struct {
+	dec *json.Decoder
+}
+
+func readerBytes(fr *frame, r value) []byte {
+	iv, ok := r.(iface)
+	if !ok || iv.t == nil {
+		panic("runtime error: invalid memory address or nil pointer dereference (nil reader)")
+	}
+	pt, ok := iv.t.Underlying().(*types.Pointer)
+	pv, _ := iv.v.(*value)
+	if ok && pv != nil {
+		if n, isNamed := pt.Elem().(*types.Named); isNamed && n.Obj().Pkg() != nil {
+			full := n.Obj().Pkg().Path() + "." + n.Obj().Name()
+			st, isStruct := (*pv).(structure)
+			if isStruct && (full == "strings.Reader" || full == "bytes.Reader") {
+				pos := int(asInt64(st[fieldIndex(n, "i")]))
+				switch s := st[fieldIndex(n, "s")].(type) {
+				case string:
+					return []byte(s[pos:])
+				case []value:
+					b, conc := concBytes(s)
+					if !conc {
+						panic(unsupported{"json.Decoder over symbolic bytes"})
+					}
+					return b[pos:]
+				case symstr:
+					panic(unsupported{"json.Decoder over symbolic text"})
+				}
+			}
+		}
+	}
+	panic(unsupported{"json.NewDecoder over reader type " + iv.t.String()})
+}
+
+func init() {
+	externals["encoding/json.NewDecoder"] = func(fr *frame, args []value) value {
+		data := readerBytes(fr, args[0])
+		return box(&jsonDecModel{dec: json.NewDecoder(bytes.NewReader(data))})
+	}
+	dm := func(v value) *jsonDecModel { return unbox(v, "*json.Decoder").(*jsonDecModel) }
+	jerr := func(err error) value {
+		if err == nil {
+			return iface{}
+		}
+		return iface{errorType, err.Error()}
+	}
+	externals["(*encoding/json.Decoder).Token"] = func(fr *frame, args []value) value {
+		tok, err := dm(args[0]).dec.Token()
+		if err != nil {
+			return tuple{iface{}, jerr(err)}
+		}
+		switch t := tok.(type) {
+		case json.Delim:
+			return tuple{iface{lookupNamed(fr.i.prog, "encoding/json", "Delim"), int32(t)}, iface{}}
+		case string:
+			return tuple{iface{types.Typ[types.String], t}, iface{}}
+		case float64:
+			return tuple{iface{types.Typ[types.Float64], t}, iface{}}
+		case bool:
+			return tuple{iface{types.Typ[types.Bool], t}, iface{}}
+		case nil:
+			return tuple{iface{}, iface{}}
+		case json.Number:
+			return tuple{iface{lookupNamed(fr.i.prog, "encoding/json", "Number"), string(t)}, iface{}}
+		}
+		panic(unsupported{"json token type"})
+	}
+	externals["(*encoding/json.Decoder).More"] = func(fr *frame, args []value) value {
+		return dm(args[0]).dec.More()
+	}
+	externals["(*encoding/json.Decoder).Decode"] = func(fr *frame, args []value) value {
+		var raw json.RawMessage
+		if err := dm(args[0]).dec.Decode(&raw); err != nil {
+			return jerr(err)
+		}
+		n, err := parseJSONBytes(raw)
+		if err != nil {
+			return jerr(err)
+		}
+		iv := args[1].(iface)
+		if iv.t == nil {
+			return iface{errorType, "json: Unmarshal(nil)"}
+		}
+		pt, ok := iv.t.Underlying().(*types.Pointer)
+		if !ok || iv.v.(*value) == nil {
+			return iface{errorType, "json: Unmarshal(non-pointer " + iv.t.String() + ")"}
+		}
+		if em := fr.i.jsonDecode(n, pt.Elem(), iv.v.(*value), 0); em != "" {
+			return iface{errorType, em}
+		}
+		return iface{}
+	}
+	externals["(*encoding/json.Decoder).UseNumber"] = func(fr *frame, args []value) value {
+		dm(args[0]).dec.UseNumber()
+		return nil
+	}
+}
